@@ -14,8 +14,7 @@ def Outcome.isIdentity : Outcome → Bool
   | _ => false
 
 /-- The assertions the SP can see: the plain ones and the decryptable prefix of the encrypted ones. -/
-def visible (r : Response) : List Assertion :=
-  (r.assertions.filter (·.encrypted)).takeWhile (·.decryptable) ++ r.assertions.filter (fun a => !a.encrypted)
+def visible (r : Response) : List Assertion := decOf r ++ plainOf r
 
 /-! ### C01 -/
 
